@@ -457,6 +457,33 @@ class Report:
       self.violation(rule, site, msg, facts, witness, line)
     return cond
 
+  def depends(self, dep, rules, why, site_filter=None):
+    """Imports rules of another property's checker as necessary conditions of
+    this property (`why` states the dependency).  They are evaluated on the
+    same tree by the other checker's code and reported here under the name
+    <dep>.<rule>; findings listed for the other property stay listed."""
+    import importlib
+    mod = importlib.import_module('sa.props.%s' % dep)
+    sub = Report(dep, self.tier, self.model)
+    mod.check(self.model, sub, self.tier)
+    for r in rules:
+      if r not in sub.rules:
+        raise AnalysisError('%s has no rule %s (dependency of %s)' % (dep, r, self.prop))
+      self.rule('%s.%s' % (dep, r), '[needed because %s] %s' % (why, sub.rules[r]),
+                floor=sub.floors.get(r, 0) if site_filter is None else 1)
+    keep = site_filter or (lambda site: True)
+    for rule, site, verdict, facts, nontrivial in sub.instances:
+      if rule in rules and verdict == 'holds' and keep(site):
+        self.hold('%s.%s' % (dep, rule), site, facts, nontrivial)
+    for v in sub.violations:
+      if v['rule'] in rules and keep(v['site']):
+        self.violation('%s.%s' % (dep, v['rule']), v['site'], v['msg'], v['facts'],
+                       v['witness'], v['line'])
+    for k in load_known():
+      if k.get('property') == dep and k.get('rule') in rules:
+        self.known.append(dict(k, rule='%s.%s' % (dep, k['rule']), property=self.prop))
+    self.files |= sub.files
+
   def note(self, msg):
     self.notes.append(msg)
 
